@@ -43,7 +43,10 @@ def run_studio(ctx, seed):
     failing = set(c for c in cats if rng.random() < 0.25)
     consumption = rng.choice(['sequential', 'round_robin', 'random', 'peek_then_drain'])
     dedicated = rng.random() < 0.12
+    spawns_helper = seed % 21 == 2 or (dedicated and seed % 2 == 0)
     desc = {'categories': cats, 'counts': counts, 'explicit': explicit, 'failing': sorted(failing), 'consumption': consumption, 'cassette': kind, 'dedicated': dedicated}
+    if spawns_helper:
+        ctx.count('studios_whose_operations_start_a_helper_process')
     w = dict(desc, seed=seed)
     with open_box(kind, prefix=rng.choice(['', 'st', 'replays-metadata', 'team/Metadata', 'full'])) as box:     # prefixes spelling the layout's own words
         rec = TapeRecorder(box.cassette)
@@ -55,6 +58,13 @@ def run_studio(ctx, seed):
                 v = self.read()
                 if current.get('interrupt') and not rec.in_playback_mode:
                     raise InterruptLike('cut short')
+                if spawns_helper and rec.in_playback_mode and str(v).endswith(':0'):
+                    # the replayed operation hands part of its work to a helper process of its own
+                    import multiprocessing
+                    import time as _time
+                    helper = multiprocessing.Process(target=_time.sleep, args=(0.01,))
+                    helper.start()
+                    helper.join()
                 self.write(v)
                 return v
             ns = {'execute': rec.operation()(execute),
@@ -99,6 +109,27 @@ def run_studio(ctx, seed):
                             os.remove(box.cassette._get_recording_file_path(rid))
                         saved[c][k] = (new_id, tok)
                         ctx.count('recordings_imported_with_foreign_style_id')
+        if kind == 'file' and seed % 2 == 0:
+            # a recording that is already stored was being saved again when its process was interrupted (Ctrl-C / kill arriving where a
+            # file would be moved into place): whatever that left in the directory, the recording is still ONE recording
+            import os
+            from playback.recordings.memory.memory_recording import MemoryRecording
+            victims = [rid for c in cats for rid, _ in saved[c]][:2]
+            orig = (os.rename, os.replace, os.link)
+
+            def interrupted(*a, **kw):
+                raise InterruptLike('the process is interrupted here (injected)')
+            os.rename = os.replace = os.link = interrupted
+            try:
+                for rid in victims:
+                    src = box.cassette.get_recording(rid)
+                    try:
+                        box.cassette.save_recording(MemoryRecording(rid, recording_data=dict(src.recording_data), recording_metadata=dict(src.recording_metadata)))
+                    except InterruptLike:
+                        ctx.count('resaves_interrupted')
+            finally:
+                os.rename, os.replace, os.link = orig
+            ctx.count('studios_after_an_interrupt_armed_resave')
         tok_of = {rid: tok for c in cats for rid, tok in saved[c] + incomplete[c]}
 
         state = {'journal': [], 'failing': set(failing)}
